@@ -159,3 +159,16 @@ _add67("C17", "the ring's counters only grow: tail by CAS(t, t+1), head by a sto
 _add67("C18", "ensureCapacity precedes the recording of the arrival on every path of policy.add (C18.record); the admission contest gets the first node that really left the window (C18.handoff); every counter is updated on every recording (C18.index).")
 _add67("C19", _ITX + " - SaveCacheTo draws from Hottest; C05.combine / C05.walk listed here; a file opened with os.OpenFile for saving carries O_TRUNC or O_EXCL (C19.file).", _IT)
 _add67("C20", "every type assertion on the configured recorder that feeds the withStats decision asserts the concrete *stats.NoopRecorder (C20.recorder); every function that uses the cause Overflow reaches RecordEviction (C20.autocause); loader never started with go (C08.sync listed here).")
+
+# ---- late round 7 / round 8 ----
+def _add8(pid, text):
+    CLAIMED[pid]["text"] = CLAIMED[pid]["text"].rstrip() + " Round 8: " + text
+
+_add8("C04", "no 64-bit field of the policy is narrowed to a 32-bit or smaller integer (C04.width).")
+_add8("C07", "limits and totals of the size bound stay 64 bits wide (C04.width).")
+_add8("C12", "the sweep expires a timer only on deadline < wheel time, re-read at the sweep (C13.nodrop listed here).")
+_add8("C13", "CleanUp / performCleanUp run maintenance on every returning path and the janitor reaches it (C13.cleanup).")
+_add8("C14", "CleanUp runs maintenance unconditionally (C13.cleanup); the drain bound of a pass is a power of two, so it covers the queue's rounded capacity (C16.bound); the eviction callback reports once (C06.async listed here).")
+_add8("C16", "a task is recycled only by its replay (C16.recycle); the drain bound / queue maximum is a power of two by construction (C16.bound).")
+_add8("C18", "the hasher is re-seeded only together with a freshly allocated table (C18.seed).")
+_add8("C19", "one maintenance pass before the snapshot drains the whole write buffer: its bound is a power of two like the queue's rounded capacity (C16.bound).")
